@@ -14,9 +14,20 @@ import (
 // cross-run state. Register every type the persistence code encodes in one
 // fixed order before the first run.
 func init() {
-	enc := gob.NewEncoder(io.Discard)
-	_ = enc.Encode(&internal.DataBlock[any]{})
-	_ = gob.NewEncoder(io.Discard).Encode(&internal.StoreMeta{})
-	_ = gob.NewEncoder(io.Discard).Encode(&internal.Pentry[K, V]{})
-	_ = gob.NewEncoder(io.Discard).Encode(1)
+	// in the order in which a save of a non-empty cache meets them: the metadata block and its
+	// payload, an entry block and its payload, the end block and its payload; then the type
+	// LoadCache decodes blocks into. (A save of an EMPTY cache meets the end block before any
+	// entry block: without this list a worker whose first scenario was an empty cache numbered
+	// the two block types the other way round, and every later stream differed in two bytes.)
+	for _, v := range []any{
+		&internal.DataBlock[*internal.StoreMeta]{},
+		&internal.StoreMeta{},
+		&internal.DataBlock[*internal.Pentry[K, V]]{},
+		&internal.Pentry[K, V]{},
+		&internal.DataBlock[int]{},
+		1,
+		&internal.DataBlock[any]{},
+	} {
+		_ = gob.NewEncoder(io.Discard).Encode(v)
+	}
 }
